@@ -2,8 +2,9 @@ import UsualProofs.C09.SafeMulProofs
 import UsualProofs.C09.PoolMem
 import UsualProofs.C09.PoolWrap
 import UsualProofs.C09.MemPoolProofs
-import UsualProofs.C09.SlabProofs
-import UsualProofs.C09.TreeHist
+import UsualProofs.C09.SlabHist
+import UsualProofs.C09.Stack3
+import UsualProofs.C09.TreeFull
 /-! Property theorems for C09 — allocators hand out aligned, disjoint, stable blocks and return
     all memory; size computations never wrap.
 
@@ -296,22 +297,47 @@ theorem tree_block_ok {t t' : TNode} {id len q a req : Nat} {A : Nat}
 example : (treeAlloc (.mk 1 1000 [] []) 1 100 (some 4096)).map (fun r => (r.1.items, r.2)) =
     some ([(4096, 116)], 4112) := by decide
 
-/- FULL STATEMENT (not proved; `tree_history_tracks_partial` below is the `tree_alloc` case):
-   theorem tree_history_tracks : for every history of cx_alloc / cx_realloc / cx_free / cx_new_tree /
-   cx_destroy(sub-tree) on a forest with unique ids, the multiset of addresses the forest holds
-   (`regions`) equals the multiset of addresses obtained from `real` and not yet returned to it.
-   Missing: the analogous `update_regions` lemmas for `treeDelItem` (free, realloc) and for
-   `TNode.remove` (destroy of a sub-tree).  These cases are covered by the correspondence run
-   (balance `live=` after every destroy), not by a theorem. -/
-/-- Bookkeeping over histories: after `tree_alloc` on any tree `id` of a forest (nested sub-trees,
-    unique allocator ids) the forest holds exactly one more address, the one just obtained from
-    `real`; together with `tree_destroy_returns_once` every address obtained is returned once. -/
-theorem tree_history_tracks_partial {t t' : TNode} {id len q a : Nat} (hid : id ∈ t.ids) (hnd : t.ids.Nodup)
-    (h : treeAlloc t id len (some a) = some (t', q)) : t'.regions.Perm (a :: t.regions) :=
-  treeAlloc_regions hid hnd h
+/-- Bookkeeping over every history of a forest of trees with nested sub-trees (`TReach`:
+    cx_new_tree, cx_alloc, cx_free, cx_realloc succeeding or failing, cx_new_tree below any tree,
+    cx_destroy of any sub-tree; parent answers only required to be addresses not currently held):
+    the forest holds exactly the addresses obtained from `real` and not yet returned, each once,
+    and allocator ids stay unique. -/
+theorem tree_history_tracks {t : TNode} {held : List Nat} (h : TReach t held) :
+    t.regions.Perm held ∧ held.Nodup ∧ t.ids.Nodup :=
+  treach_inv h
 
-example : ((treeAlloc (.mk 1 1000 [(2000, 24)] [.mk 2 4000 [] []]) 2 50 (some 9000)).map
-    (fun r => r.1.destroyList)) = some [2000, 9000, 4000, 1000] := by decide
+/-- … hence `cx_destroy` of the root returns every address obtained and not yet returned exactly
+    once, and `cx_destroy` of a sub-tree returns exactly what that sub-tree holds, each once, all
+    of it currently held. -/
+theorem tree_history_destroy_once {t : TNode} {held : List Nat} (h : TReach t held) :
+    t.destroyList.Perm held ∧ t.destroyList.Nodup ∧
+    ∀ id n, t.find id = some n → id ∈ idsL t.subs →
+      n.destroyList.Nodup ∧ ∀ x ∈ n.destroyList, x ∈ held := by
+  obtain ⟨hp, hn, hi⟩ := treach_inv h
+  refine ⟨(destroyList_perm t).trans hp, destroyList_nodup t (hp.nodup_iff.mpr hn), ?_⟩
+  intro id n hf hsub
+  obtain ⟨n1, hf1, _, hR⟩ := decompRemove ownR id t hsub hi
+  rw [hf] at hf1; cases hf1
+  rw [← regions_eq_collect, ← regions_eq_collect, ← regions_eq_collect] at hR
+  have hnd : (n.regions ++ (t.remove id).regions).Nodup := hR.nodup_iff.mp (hp.nodup_iff.mpr hn)
+  refine ⟨destroyList_nodup n (List.nodup_append.mp hnd).1, ?_⟩
+  intro x hx
+  have hx' : x ∈ n.regions := (destroyList_perm n).subset hx
+  exact hp.subset (hR.symm.subset (List.mem_append_left _ hx'))
+
+/-- example history: root 1, block, sub-tree 2 with a block, realloc of the root's block,
+    free in the sub-tree, sub-tree 3 below 2, destroy of sub-tree 2 -/
+example : ∃ t held, TReach t held ∧ held = [5000, 1000] ∧ t.destroyList = [5000, 1000] := by
+  have h0 := TReach.root 1 1000
+  have h1 := TReach.alloc (id := 1) (len := 100) (a := 2000) (q := 2016) h0 (by decide) (by decide) rfl
+  have h2 := TReach.newSub (par := 1) (newId := 2) (a := 3000) h1 (by decide) (by decide) (by decide)
+  have h3 := TReach.alloc (id := 2) (len := 8) (a := 4000) (q := 4016) h2 (by decide) (by decide) rfl
+  have h4 := TReach.realloc (id := 1) (a := 2000) (sz := 116) (len := 300) (req := 316) (a' := 5000) h3
+    (n := .mk 1 1000 [(2000, 116)] [.mk 2 3000 [(4000, 24)] []]) rfl (by decide) (by decide) (by decide)
+  have h5 := TReach.free (id := 2) (a := 4000) (sz := 24) h4 (n := .mk 2 3000 [(4000, 24)] []) rfl (by decide)
+  have h6 := TReach.newSub (par := 2) (newId := 3) (a := 6000) h5 (by decide) (by decide) (by decide)
+  have h7 := TReach.destroySub (id := 2) h6 (n := .mk 2 3000 [] [.mk 3 6000 [] []]) (by decide) rfl
+  exact ⟨_, _, h7, by decide, by decide⟩
 
 /-- `TREE_HDR + len` is refused instead of wrapping (F20). -/
 theorem tree_no_wrap (len : Nat) (hl : len < 2 ^ 64) :
@@ -325,61 +351,23 @@ example : treeReq (2 ^ 64 - 8) = none := by decide
 
 /-! ## slab -/
 
-/-- histories of `slab_alloc` / `slab_free` on a slab created by `slab_create`; `live` are the
-    objects the client holds, `obtained` the regions taken from the parent -/
-inductive SReach : Slab → List Nat → List (Nat × Nat) → Prop
-  | create {objSize align a : Nat} {s : Slab} : slabCreate objSize align (some a) = some s →
-      SReach s [] [(a, sizeofSlab)]
-  | alloc {s s' : Slab} {live : List Nat} {ob : List (Nat × Nat)} {o : Nat} {pa : Option Nat} :
-      SReach s live ob → (∀ req, slabAllocReq s = some req → SParentOk s req pa) →
-      slabAlloc s pa = (s', some o) →
-      SReach s' (o :: live) (obtainedAfter ob (slabAllocReq s) pa)
-  | free {s : Slab} {live : List Nat} {ob : List (Nat × Nat)} {o : Nat} :
-      SReach s live ob → o ∈ live → SReach (slabFree s o) (live.erase o) ob
-
-theorem slab_reach_inv {s : Slab} {live : List Nat} {ob : List (Nat × Nat)} (h : SReach s live ob) :
-    SInv s live ∧ ob = (s.hdr, sizeofSlab) :: s.frags := by
-  induction h with
-  | create hc =>
-    simp only [slabCreate, Option.map_some, Option.some.injEq] at hc
-    subst hc
-    exact ⟨⟨slabFinalSize_ge _ _, by simp, by intro o ho; simp at ho, by simp⟩, rfl⟩
-  | @alloc s s' live ob o pa _ hpa hr ih =>
-    refine ⟨slabAlloc_inv ih.1 hpa hr, ?_⟩
-    unfold slabAlloc at hr
-    cases hfl : s.freelist with
-    | cons x rest =>
-      simp only [hfl, Prod.mk.injEq] at hr
-      rw [← hr.1]
-      simp [slabAllocReq, hfl, obtainedAfter, ih.2]
-    | nil =>
-      simp only [hfl] at hr
-      cases pa with
-      | none => simp at hr
-      | some a =>
-        simp only [] at hr
-        cases hfl2 : (slabGrow s a).freelist with
-        | nil => simp [hfl2] at hr
-        | cons x rest =>
-          simp only [hfl2, Prod.mk.injEq] at hr
-          rw [← hr.1]
-          simp [slabAllocReq, hfl, obtainedAfter, ih.2, slabGrow]
-  | free _ ho ih => exact ⟨slabFree_inv ih.1 ho, ih.2⟩
-
-/-- Every object `slab_alloc` returns is a slot of one fragment obtained from the parent (behind
-    the fragment header, `final_size ≥ obj_size` bytes inside the fragment), is different from —
-    and at least `final_size` bytes away from — every object the client still holds. -/
-theorem slab_block_ok {s s' : Slab} {live : List Nat} {ob : List (Nat × Nat)} {o : Nat} {pa : Option Nat}
-    (h : SReach s live ob) (hpa : ∀ req, slabAllocReq s = some req → SParentOk s req pa)
+/-- In every state reachable by `slab_alloc` / `slab_free` (freed objects are reused, LIFO) over
+    a parent that answers with fresh memory at multiples of `A`: the object `slab_alloc` returns
+    is a slot of one fragment obtained from the parent (behind the fragment header, `final_size`
+    bytes inside the fragment), is at least `final_size` bytes away from every object the client
+    still holds, and is `A`-aligned whenever `A` divides 16 and `final_size` (see
+    `slab_final_size_ok`: any requested alignment up to 16, as slab.h documents). -/
+theorem slab_block_ok {A : Nat} {s s' : Slab} {live : List Nat} {ob : List (Nat × Nat)} {o : Nat}
+    {pa : Option Nat} (h : SReach A s live ob)
+    (hpa : ∀ req, slabAllocReq s = some req → SParentOkM s req pa) (hal : ∀ a, pa = some a → a % A = 0)
     (hr : slabAlloc s pa = (s', some o)) :
     (∃ f ∈ s'.frags, f.1 + slabFragHdr ≤ o ∧ o + s'.finalSize ≤ f.1 + f.2) ∧
-    (∀ p ∈ live, o + s'.finalSize ≤ p ∨ p + s'.finalSize ≤ o) := by
-  have hi := slabAlloc_inv (slab_reach_inv h).1 hpa hr
+    (∀ p ∈ live, o + s'.finalSize ≤ p ∨ p + s'.finalSize ≤ o) ∧
+    (16 % A = 0 → s'.finalSize % A = 0 → o % A = 0) := by
+  obtain ⟨hM, _, hfa, _⟩ := sreach_inv (SReach.alloc h hpa hal hr)
+  have hi := hM.inv
   obtain ⟨f, hf, hslot⟩ := hi.slot o (by simp)
-  refine ⟨⟨f, hf, ?_⟩, ?_⟩
-  · obtain ⟨i, rfl, hb⟩ := hslot
-    have : (i + 1) * s'.finalSize = i * s'.finalSize + s'.finalSize := Nat.succ_mul _ _
-    omega
+  refine ⟨⟨f, hf, slot_bounds hslot⟩, ?_, ?_⟩
   · intro p hp
     obtain ⟨g, hg, hslotp⟩ := hi.slot p (by simp [hp])
     have hne : o ≠ p := by
@@ -387,31 +375,27 @@ theorem slab_block_ok {s s' : Slab} {live : List Nat} {ob : List (Nat × Nat)} {
       rw [List.nodup_append] at hnd
       have := (List.nodup_cons.mp hnd.2.1).1
       intro e; exact this (e ▸ hp)
-    have hfg : f = g ∨ fragDisj f g ∨ fragDisj g f := pairwise_mem_cases hi.frag_disj hf hg
-    exact slots_apart hslot hslotp hfg hne
+    exact slots_apart hslot hslotp (pairwise_mem_cases hi.frag_disj hf hg) hne
+  · intro h16 hfs
+    obtain ⟨i, rfl, _⟩ := hslot
+    have : (i * s'.finalSize) % A = 0 := by rw [Nat.mul_mod, hfs]; simp
+    simp only [slabFragHdr]
+    rw [Nat.add_mod, Nat.add_mod f.1, hfa f hf, h16, this]; simp
 
 /-- example history: slab of 1000-byte objects, alignment 16; first `slab_alloc` grows by 50 objects -/
 def exSlab0 : Slab := { hdr := 4096, finalSize := slabFinalSize 1000 16, total := 0, freelist := [], frags := [] }
 def exSlab1 : Slab := (slabAlloc exSlab0 (some 8192)).1
 
-example : SReach exSlab1 [8208] (obtainedAfter [(4096, sizeofSlab)] (slabAllocReq exSlab0) (some 8192)) ∧
+example : SReach 16 exSlab1 [8208] (obtainedAfter [(4096, sizeofSlab)] (slabAllocReq exSlab0) (some 8192)) ∧
     exSlab1.total = 50 ∧ exSlab1.freelist.take 2 = [9216, 10224] :=
   ⟨SReach.alloc (SReach.create (objSize := 1000) (align := 16) (a := 4096) rfl)
-    (by intro req _ a _ f hf; simp [exSlab0] at hf)
+    (by intro req _; exact ⟨by intro a _ f hf; simp [exSlab0] at hf, by intro a ha; cases ha; simp only [exSlab0, sizeofSlab]; omega⟩)
+    (by intro a ha; cases ha; decide)
     (Prod.ext rfl (by decide +kernel : (slabAlloc exSlab0 (some 8192)).2 = some 8208)),
    by decide +kernel, by decide +kernel⟩
 
-/-- alignment of slab objects (slab.h: alignments up to what the parent delivers, at most 16):
-    a slot of a fragment at an `A`-aligned address is `A`-aligned when `A` divides the fragment
-    header (16) and `final_size`; and `init_slab` makes `final_size` a multiple of the requested
-    alignment (8 when none or less is asked for) not smaller than the object size. -/
-theorem slab_align_ok {fs A : Nat} {f : Nat × Nat} {o : Nat} (hs : IsSlot fs f o)
-    (hf : f.1 % A = 0) (h16 : 16 % A = 0) (hfs : fs % A = 0) : o % A = 0 := by
-  obtain ⟨i, rfl, _⟩ := hs
-  have : (i * fs) % A = 0 := by rw [Nat.mul_mod, hfs]; simp
-  simp only [slabFragHdr]
-  rw [Nat.add_mod, Nat.add_mod f.1, hf, h16, this]; simp
-
+/-- `init_slab` makes `final_size` a multiple of the requested alignment (8 when none or less is
+    asked for) that is not smaller than the object size. -/
 theorem slab_final_size_ok (objSize align : Nat) (hal : align = 0 ∨ align = 8 ∨ align = 16)
     (hsz : objSize + 16 < 2 ^ 32) :
     objSize ≤ slabFinalSize objSize align ∧
@@ -434,13 +418,103 @@ theorem slab_final_size_ok (objSize align : Nat) (hal : align = 0 ∨ align = 8 
     rw [Nat.mod_eq_of_lt (by omega)]
     split <;> omega
 
+/-- Slab objects are initialised as slab.h documents, in every reachable state and for every
+    memory `m` before the call.  With `m1` the memory handed to the last step of `slab_alloc`
+    (`m' = init_func applied to obj` resp. `memset(obj, 0, final_size)`):
+    * no `init_func`: the returned object consists of `final_size` zero bytes;
+    * `init_func` given: it is applied exactly once, to the returned object, and behind the
+      `struct List` at its start the object it sees is zero-filled if it comes from a fragment
+      just obtained, and otherwise holds exactly the bytes it held before the call — which are
+      the bytes the client left at `slab_free` (`slab_free_contents` and the last item);
+    * every object the client holds keeps all its bytes; every object that stays free keeps its
+      bytes behind the list node (the callback is assumed to write inside its object only). -/
+theorem slab_init_documented {A : Nat} {s s' : Slab} {live : List Nat} {ob : List (Nat × Nat)} {o : Nat}
+    {pa : Option Nat} (junk : Mem) (init : InitFn) (m m' : Mem) (h : SReach A s live ob)
+    (hpa : ∀ req, slabAllocReq s = some req → SParentOkM s req pa)
+    (hloc : InitLocal init s.finalSize)
+    (hr : slabAllocM junk init s m pa = (s', some o, m')) :
+    slabAlloc s pa = (s', some o) ∧
+    ∃ m1 : Mem,
+      m' = slabInitMem init o s.finalSize m1 ∧
+      (init = none → ∀ i, i < s.finalSize → m' (o + i) = 0) ∧
+      (∀ i, listSize ≤ i → i < s.finalSize →
+          m1 (o + i) = if s.freelist = [] then 0 else m (o + i)) ∧
+      (∀ p ∈ live, ∀ i, i < s.finalSize → m' (p + i) = m (p + i)) ∧
+      (∀ p ∈ s'.freelist, p ∈ s.freelist → ∀ i, listSize ≤ i → i < s.finalSize → m' (p + i) = m (p + i)) := by
+  refine ⟨?_, slabAllocM_frame junk init m m' (sreach_inv h).1 hpa hloc hr⟩
+  have := slabAllocM_state junk init s m pa
+  rw [hr] at this
+  exact this.symm
+
+example : (slabAllocM (fun _ => 7) none exSlab0 (fun _ => 9) (some 8192)).2.2 8300 = 0 ∧
+    (slabAllocM (fun _ => 7) (some (fun o m x => if x = o + 20 then 5 else m x)) exSlab0 (fun _ => 9) (some 8192)).2.2 8228 = 5 := by
+  constructor <;> decide +kernel
+
+/-- `slab_free` and contents: the object given back keeps its bytes behind the list node (this is
+    "the old obj from _free()" a later callback sees), every other object the client holds keeps
+    all its bytes, every free object keeps its bytes behind the list node. -/
+theorem slab_free_contents {A : Nat} {s : Slab} {live : List Nat} {ob : List (Nat × Nat)} {obj : Nat}
+    (junk m : Mem) (h : SReach A s live ob) (ho : obj ∈ live) :
+    (slabFreeM junk s m obj).1 = slabFree s obj ∧
+    (∀ i, listSize ≤ i → i < s.finalSize → (slabFreeM junk s m obj).2 (obj + i) = m (obj + i)) ∧
+    (∀ p ∈ live, p ≠ obj → ∀ i, i < s.finalSize → (slabFreeM junk s m obj).2 (p + i) = m (p + i)) ∧
+    (∀ p ∈ s.freelist, ∀ i, listSize ≤ i → i < s.finalSize → (slabFreeM junk s m obj).2 (p + i) = m (p + i)) :=
+  ⟨rfl, slabFreeM_frame junk m (sreach_inv h).1 ho⟩
+
 /-- `slab_destroy` hands back to the parent exactly the regions obtained from it (the slab struct
-    and every fragment), each once. -/
-theorem slab_destroy_returns_once {s : Slab} {live : List Nat} {ob : List (Nat × Nat)}
-    (h : SReach s live ob) : (slabDestroy s).Perm ob := by
-  rw [(slab_reach_inv h).2]
-  unfold slabDestroy
-  exact List.perm_append_singleton _ _
+    and every fragment), each exactly once. -/
+theorem slab_destroy_returns_once {A : Nat} {s : Slab} {live : List Nat} {ob : List (Nat × Nat)}
+    (h : SReach A s live ob) : (slabDestroy s).Perm ob ∧ (slabDestroy s).Nodup := by
+  obtain ⟨hM, hob, _, hd⟩ := sreach_inv h
+  have hperm : (slabDestroy s).Perm ob := by
+    rw [hob]; unfold slabDestroy; exact List.perm_append_singleton _ _
+  refine ⟨hperm, ?_⟩
+  rw [hperm.nodup_iff, hob]
+  refine List.nodup_cons.mpr ⟨?_, ?_⟩
+  · intro hmem
+    have := hM.hdr_disj _ hmem
+    simp only [fragDisj, sizeofSlab] at this; omega
+  · -- fragments: pairwise non-overlapping and non-empty (each holds at least one slot)
+    have hpos : ∀ f ∈ s.frags, 0 < f.2 := by
+      intro f hf
+      -- every fragment was created with at least the header
+      have : ∀ {A s live ob}, SReach A s live ob → ∀ f ∈ s.frags, 16 ≤ f.2 := by
+        intro A s live ob h
+        induction h with
+        | create hc =>
+          simp only [slabCreate, Option.map_some, Option.some.injEq] at hc
+          subst hc; intro f hf; simp at hf
+        | @alloc s s' live ob o pa _ _ _ hr ih =>
+          intro f hf
+          unfold slabAlloc at hr
+          cases hfl : s.freelist with
+          | cons x rest =>
+            simp only [hfl, Prod.mk.injEq] at hr
+            rw [← hr.1] at hf; exact ih f hf
+          | nil =>
+            simp only [hfl] at hr
+            cases pa with
+            | none => simp at hr
+            | some a =>
+              simp only [] at hr
+              cases hfl2 : (slabGrow s a).freelist with
+              | nil => simp [hfl2] at hr
+              | cons x rest =>
+                simp only [hfl2, Prod.mk.injEq] at hr
+                rw [← hr.1] at hf
+                simp only [slabGrow, List.mem_append, List.mem_singleton] at hf
+                rcases hf with hf | rfl
+                · exact ih f hf
+                · simp only [slabGrowReq, slabFragHdr]; omega
+        | free _ _ ih => exact ih
+      have := this h f hf
+      omega
+    refine List.Pairwise.imp_of_mem ?_ hd
+    intro a b ha hb hdab
+    have := hpos a ha
+    have := hpos b hb
+    simp only [fragDisj] at hdab
+    intro e; subst e; omega
 
 /-! ## mempool -/
 
@@ -479,14 +553,120 @@ theorem mempool_destroy_returns_once {mp : MemPool} {live : List Block} {ob : Li
 theorem mempool_f19_old_counterexample :
     mpFitOld { base := 4096, size := 512, used := 16 } 0xFFFFFFF0 = some (16, 0) := by decide
 
+/-! ## stacking: any allocator that hands out fresh memory can be the parent -/
+
+/-- **alloc_stack_ok.**  `Fresh S` is the contract between an allocator `S` and its client: the
+    blocks handed out and not yet given back are pairwise disjoint and non-empty, a successful
+    `alloc`/`realloc` adds exactly the returned block (of the requested size), `free`/`realloc`
+    give up exactly the block passed, failures change nothing.  `PoolOn P` / `TreeOn P` are the
+    cx pool / the tree allocator (a forest with nested sub-trees) running on top of an arbitrary
+    allocator `P`: a composite step takes a step of `P` exactly where the C code calls
+    `cx_alloc/cx_realloc/cx_free` on its parent.  If `P` satisfies the contract, so do the pool
+    and the tree on top of it — they require nothing else from their parent and offer the same to
+    their clients, so stacks of any depth (pool in tree in tree in a libc/talloc-backed base …)
+    keep all blocks disjoint. -/
+theorem alloc_stack_ok (P : Sys) (hP : Fresh P) : Fresh (PoolOn P) ∧ Fresh (TreeOn P) :=
+  ⟨fresh_poolOn hP, fresh_treeOn hP⟩
+
+/-- a concrete allocator satisfying the contract (bump allocator), and a stack of depth 4 on it -/
+example : Fresh Bump ∧ Fresh (PoolOn (PoolOn (TreeOn (TreeOn Bump)))) :=
+  ⟨fresh_bump, fresh_poolOn (fresh_poolOn (fresh_treeOn (fresh_treeOn fresh_bump)))⟩
+
+/-- The pool on any parent `P` satisfying the contract: `cx_new_pool` starts a well-formed
+    composite; in every well-formed state each block is aligned to the pool's alignment and lies
+    inside (behind the first byte of) a block the pool obtained from `P`; `cx_destroy` passes to
+    `cx_free(P, …)` exactly the regions obtained from `P`, each once, all of them live in `P`, and
+    `P` ends up holding exactly what it held without them. -/
+theorem pool_on_any_parent (P : Sys) (hP : Fresh P) :
+    (∀ {sp sp' : P.σ} {initial align a : Nat} {p : Pool}, P.WF sp → align < 2 ^ 32 →
+       P.alloc sp (newPoolReq initial) (some a) sp' → newPool initial align (some a) = some p →
+       (PoolOn P).WF (⟨p, [], [(a, newPoolReq initial)]⟩, sp')) ∧
+    (∀ {s : (PoolOn P).σ}, (PoolOn P).WF s → ∀ b ∈ (PoolOn P).live s, b.ptr % s.1.pool.align = 0 ∧
+       ∃ r ∈ P.live s.2, r.ptr < b.ptr ∧ b.ptr + b.len ≤ r.ptr + r.len) ∧
+    (∀ {s : (PoolOn P).σ} {sp' : P.σ}, (PoolOn P).WF s →
+       FreeAll P s.2 ((destroy s.1.pool).map blkOf) sp' →
+       destroy s.1.pool = s.1.obtained.reverse ∧ (destroy s.1.pool).Nodup ∧ P.WF sp' ∧
+       ∃ rest, (P.live s.2).Perm ((destroy s.1.pool).map blkOf ++ rest) ∧ rest.Perm (P.live sp')) :=
+  ⟨fun hwf hal hpa hp => poolOn_create hP hwf hal hpa hp, fun hwf => poolOn_block_inside hwf,
+   fun hwf hd => poolOn_destroy hP hwf hd⟩
+
+/-- The tree allocator on any parent `P` satisfying the contract: `cx_new_tree(P)` and
+    `cx_new_tree(tree)` keep the composite well-formed; `cx_destroy` of the root passes to
+    `cx_free(P, …)` blocks that were all live in `P` (in the order of `tree_destroy`) and leaves
+    `P` with exactly the rest; `cx_destroy` of a sub-tree leaves a well-formed forest. -/
+theorem tree_on_any_parent (P : Sys) (hP : Fresh P) :
+    (∀ {sp sp' : P.σ} {id a : Nat}, P.WF sp → P.alloc sp sizeofTree (some a) sp' →
+       (TreeOn P).WF (.mk id a [] [], sp')) ∧
+    (∀ {s : (TreeOn P).σ} {sp' : P.σ} {par newId a : Nat}, (TreeOn P).WF s → par ∈ s.1.ids →
+       newId ∉ s.1.ids → P.alloc s.2 sizeofTree (some a) sp' →
+       (TreeOn P).WF (s.1.update (treeAddSub newId a) par, sp')) ∧
+    (∀ {s : (TreeOn P).σ} {sp' : P.σ}, (TreeOn P).WF s → FreeAll P s.2 (destroyB s.1) sp' →
+       (destroyB s.1).map (·.ptr) = s.1.destroyList ∧ P.WF sp' ∧
+       ∃ rest, (P.live s.2).Perm (destroyB s.1 ++ rest) ∧ rest.Perm (P.live sp')) ∧
+    (∀ {s : (TreeOn P).σ} {sp' : P.σ} {id : Nat} {n : TNode}, (TreeOn P).WF s → id ∈ idsL s.1.subs →
+       s.1.find id = some n → FreeAll P s.2 (destroyB n) sp' → (TreeOn P).WF (s.1.remove id, sp')) :=
+  ⟨fun hwf hpa => treeOn_create hP hwf hpa, fun hwf hpar hnew hpa => treeOn_newSub hP hwf hpar hnew hpa,
+   fun hwf hd => treeOn_destroy hP hwf hd, fun hwf hsub hf hd => treeOn_destroySub hP hwf hsub hf hd⟩
+
+/-- The slab on any parent `P` satisfying the contract: what `grow` gets from `cx_alloc0(P, …)`
+    is what the slab theorems require from the parent (`SParentOkM`), the composite stays
+    well-formed through `slab_create`, `slab_alloc`, `slab_free`; every object held lies inside a
+    block obtained from `P`; `slab_destroy` returns every fragment and the slab struct, once. -/
+theorem slab_on_any_parent (P : Sys) (hP : Fresh P) :
+    (∀ {sp sp' : P.σ} {objSize align a : Nat} {sl : Slab}, P.WF sp → P.alloc sp sizeofSlab (some a) sp' →
+       slabCreate objSize align (some a) = some sl → SlabOnWF (⟨sl, [], sp'⟩ : SlabOnState P)) ∧
+    (∀ {s : SlabOnState P} {sp' : P.σ} {pa : Option Nat} {sl' : Slab} {r : Option Nat}, SlabOnWF s →
+       ParentCall P s.par (slabAllocReq s.slab) pa sp' → slabAlloc s.slab pa = (sl', r) →
+       (∀ req, slabAllocReq s.slab = some req → SParentOkM s.slab req pa) ∧
+       SlabOnWF (⟨sl', consOpt r s.live, sp'⟩ : SlabOnState P)) ∧
+    (∀ {s : SlabOnState P} {o : Nat}, SlabOnWF s → o ∈ s.live →
+       SlabOnWF (⟨slabFree s.slab o, s.live.erase o, s.par⟩ : SlabOnState P)) ∧
+    (∀ {s : SlabOnState P}, SlabOnWF s → ∀ o ∈ s.live, ∃ b ∈ P.live s.par,
+       b.ptr + slabFragHdr ≤ o ∧ o + s.slab.finalSize ≤ b.ptr + b.len) ∧
+    (∀ {s : SlabOnState P} {sp' : P.σ}, SlabOnWF s →
+       FreeAll P s.par ((slabDestroy s.slab).map blkOf) sp' →
+       P.WF sp' ∧ ∃ rest, (P.live s.par).Perm ((slabDestroy s.slab).map blkOf ++ rest) ∧ rest.Perm (P.live sp')) :=
+  ⟨fun hwf hpa hc => slabOn_create hP hwf hpa hc, fun hwf hc hr => slabOn_alloc hP hwf hc hr,
+   fun hwf ho => slabOn_free hwf ho, fun hwf => slabOn_inside hwf, fun hwf hd => slabOn_destroy hP hwf hd⟩
+
+/-- The mempool on any parent `P` (its `calloc`) satisfying the contract with 8-aligned answers:
+    the answer is what the mempool theorems require (`MParentOk`), the composite stays
+    well-formed, blocks are 8-aligned and inside a block obtained from `P`, destroy returns all. -/
+theorem mempool_on_any_parent (P : Sys) (hP : Fresh P) (hal : Aligned8 P) :
+    (∀ {s : MpOnState P} {sp' : P.σ} {size q : Nat} {pa : Option Nat} {mp' : MemPool}, MpOnWF s →
+       ParentCall P s.par (mpAllocReq s.mp size) pa sp' → mpAlloc s.mp size pa = some (mp', q) →
+       (∀ req, mpAllocReq s.mp size = some req → MParentOk s.mp req pa) ∧
+       MpOnWF (⟨mp', ⟨q, size⟩ :: s.live, sp'⟩ : MpOnState P)) ∧
+    (∀ {s : MpOnState P}, MpOnWF s → ∀ b ∈ s.live, b.ptr % 8 = 0 ∧
+       ∃ r ∈ P.live s.par, r.ptr + mpHdr ≤ b.ptr ∧ b.ptr + b.len ≤ r.ptr + r.len) ∧
+    (∀ {s : MpOnState P} {sp' : P.σ}, MpOnWF s → FreeAll P s.par ((mpDestroy s.mp).map blkOf) sp' →
+       P.WF sp' ∧ ∃ rest, (P.live s.par).Perm ((mpDestroy s.mp).map blkOf ++ rest) ∧ rest.Perm (P.live sp')) :=
+  ⟨fun hwf hc hr => mpOn_alloc hP hal hwf hc hr, fun hwf => mpOn_inside hwf, fun hwf hd => mpOn_destroy hP hwf hd⟩
+
+/-- non-vacuity: a pool created inside a tree inside the bump allocator is a well-formed state of
+    the depth-2 stack, and a block allocated from it is registered -/
+example : ∃ s : (PoolOn (TreeOn Bump)).σ, (PoolOn (TreeOn Bump)).WF s ∧ s.2.2.1 = 8192 + 72 + (16 + 1104) := by
+  have hb : Bump.WF (8192, []) := ⟨by simp, by intro b hb; cases hb⟩
+  have ht := treeOn_create (id := 1) fresh_bump hb (sp' := (8192 + 72, [⟨8192, 72⟩])) (Or.inl ⟨rfl, rfl⟩)
+  have hp := poolOn_create (P := TreeOn Bump) (fresh_treeOn fresh_bump) ht (initial := 1024) (align := 64)
+    (a := 8192 + 72 + 16)
+    (sp' := (.mk 1 8192 [(8192 + 72, 16 + 1104)] [], (8192 + 72 + (16 + 1104), [⟨8192 + 72, 16 + 1104⟩, ⟨8192, 72⟩])))
+    (by decide)
+    ⟨1, by decide, some (8192 + 72), by
+      refine ⟨?_, ?_⟩
+      · show Bump.alloc _ _ _ _
+        exact Or.inl ⟨rfl, rfl⟩
+      · exact ⟨rfl, rfl⟩⟩
+    rfl
+  exact ⟨_, hp, rfl⟩
+
 /- NOT PROVED (delegated to the correspondence run, listed as partial in the evidence):
-   * slab_init_documented : an object returned by slab_alloc without init_func consists of
-     final_size zero bytes; with init_func the function is called exactly once on it.  The models
-     carry no memory contents except for the pool's realloc copy; harness/C09/h.c checks this on
-     every slab_alloc (`ct`).
-   * alloc_stack_ok : the block properties for stacks (pool in tree in talloc-backed cx): follows
-     by instantiating `ParentOk` of the upper layer with `*_block_ok` of the lower one; the glue
-     `Usual.C09.World` that does this composition for the driver is not the subject of a theorem.
+   * the composition glue of the model driver (`Usual.C09.World`, which threads the op lines of
+     the harness through the layer models) is not itself the subject of a theorem; the stacking
+     theorems above are about `PoolOn` / `TreeOn` / `SlabOn…` / `MpOn…`, which compose the same
+     layer models (`step`, `treeAlloc`, `slabAlloc`, `mpAlloc` …) at the same call sites.
+   * contents across layers: `Fresh` speaks about which blocks are held, not about bytes; contents
+     are proved per layer (`pool_realloc_preserves`, `slab_init_documented`, `slab_free_contents`).
    * real pointers: models use abstract addresses; ASan + the poisoned margins of the tracking
      base allocator watch the real ones. -/
 end UsualProps.C09
